@@ -74,6 +74,8 @@ type Machine struct {
 	freshMaps map[*MapV]bool
 	bounds    map[*Term][2]int64 // signed interval implied by the path condition, per variable
 	opaqueMemo map[string]*Term
+	intText    map[string]*Term // opaque decimal text of a symbolic integer -> that integer (BV64)
+	stubMemo   map[string]value // results of value-returning stubs: the same argument gives the same result
 }
 
 func (m *Machine) fail(kind, detail string) {
